@@ -213,12 +213,13 @@ def input_rewriting(ctx):
 ''', 'partial', 'x[i] = value for every (i, value) of the mask')
     _ref(ctx, ctx.func(TL + ':synchronized.dec.func'), '''def func(x, *args, **kwds):
     for i,j in mask.items():
-        if isinstance(j, tuple):
+        try: x[i] = x[j]
+        except (TypeError, IndexError) as err:
+          if not isinstance(j, tuple):
+            if isinstance(err, TypeError): raise
+            continue
           j0,j1 = (j[:2] + (1,))[:2]
           try: x[i] = j1(x[j0]) if isinstance(j1, _Callable) else j1*x[j0]
-          except IndexError: pass
-        else:
-          try: x[i] = x[j]
           except IndexError: pass
     return f(x, *args, **kwds)
 ''', 'synchronized', 'x[i] = x[j] (or scaled) for every (i, j) of the mask')
@@ -226,6 +227,7 @@ def input_rewriting(ctx):
     x = asarray(list(x))
     mask = abs(x) < tol
     if not clip:
+        if mask.any() and x.dtype.kind in 'iub': x = x.astype(float)
         x[mask==False] = (x + sum(x[mask])/(len(mask)-sum(mask)))[mask==False]
     x[mask] = 0.0
     return x.tolist()
@@ -351,6 +353,10 @@ def bounded_membership_and_addressing(ctx):
     ctx.need(len(stores) >= 4, 'bounded: expected >= 4 stores into seq, found %d' % len(stores))
     first_store = min(st.lineno for st, ix in stores)
     pre = [st for st in f.node.body if st.lineno < first_store and st.lineno >= st0.lineno]
+    # only the statements that can still change `at`: what follows its last binding (the dtype widening of seq) is not part of the index set
+    binds_at = [k_ for k_, st in enumerate(pre) if any(isinstance(x, ast.Name) and x.id == 'at' and isinstance(x.ctx, ast.Store) for x in ast.walk(st))]
+    if binds_at:
+        pre = pre[:binds_at[-1] + 1]
     AT = combined_value(pre, 'at')
     ctx.need(AT is not None, 'bounded: the written index set is not bound on every path')
     is_none = T.mk_cmp('is', IDX, ('const', None))
@@ -460,7 +466,7 @@ def _array_of_param(v, params):
 def float_values_are_not_stored_into_an_integer_array(ctx):
     """bounded (behind impose_bounds) and impose_at write computed values - an interval end, a draw inside an interval, the pinned target - into an array made from the caller's vector; made with array(x) / asarray(list(x)) that array has the caller's dtype, and numpy silently truncates a float stored into an integer array (impose_bounds((0.5, 5.5)) on [0, 3, 10] gave [0, 3, 5]: outside the interval). On every path to such a store the array has been widened first: created with dtype=float, or re-bound through .astype(...) (possibly under a test of its dtype)"""
     n = 0
-    for anchor in (CN + ':bounded', CN + ':impose_at.dec.func'):
+    for anchor in (CN + ':bounded', CN + ':impose_at.dec.func', TL + ':suppress'):
         f = ctx.func(anchor)
         params = set(f.args())
         made = {}
@@ -472,7 +478,9 @@ def float_values_are_not_stored_into_an_integer_array(ctx):
         ctx.need(made, '%s: the working array made from the input is not found' % f.qualname)
         for A, (s0, kind) in sorted(made.items()):
             stores = [st for st in stmts_of(f.node) if isinstance(st, ast.Assign) and len(st.targets) == 1 and isinstance(st.targets[0], ast.Subscript)
-                      and isinstance(st.targets[0].value, ast.Name) and st.targets[0].value.id == A]
+                      and isinstance(st.targets[0].value, ast.Name) and st.targets[0].value.id == A
+                      # (a whole-number constant - x[mask] = 0.0 - is exact in every dtype)
+                      and not (isinstance(st.value, ast.Constant) and isinstance(st.value.value, (int, float)) and not isinstance(st.value.value, bool) and float(st.value.value).is_integer())]
 
             def widens(node):
                 return isinstance(node, ast.Assign) and len(node.targets) == 1 and isinstance(node.targets[0], ast.Name) and node.targets[0].id == A and \
@@ -557,3 +565,40 @@ def unique_draws_replacements_from_a_set(ctx):
                       'unique builds its pool of replacement values as %s, which keeps repeated members of the allowed collection: two duplicates can be replaced by the same value - the result is not pairwise distinct'
                       % unparse(v)[:70], f, st)
     ctx.need(n >= 2, 'unique: expected the two pool constructions (integer range / explicit collection), found %d' % n)
+
+
+@rule('C16.n', min_instances=40)
+def settings_objects_are_not_consumed(ctx):
+    """a transform may be applied any number of times with the same settings object (impose_unique(d) keeps d for every call): no function of mystic.constraints / mystic.tools deletes from, pops from or clears an object it was handed as an argument (unique used to `del full['type']`: the second call with the same dict no longer knew the allowed type and returned floats for an integer set). Parameters re-bound to a fresh object inside the function are the function's own"""
+    n = 0
+    for mod in (CN, TL):
+        m = ctx.model.modules[mod]
+        for q, fi in sorted(m.funcs.items()):
+            if not isinstance(fi.node, ast.FunctionDef):
+                continue
+            n += 1
+            params = set(a.arg for a in fi.node.args.args + fi.node.args.kwonlyargs)
+            # a parameter unconditionally re-bound (a top-level statement of the body) before the operation is the function's own object from then on
+            rebound_at = {}
+            for st in fi.node.body:
+                if isinstance(st, ast.Assign):
+                    for t_ in st.targets:
+                        if isinstance(t_, ast.Name):
+                            rebound_at.setdefault(t_.id, st.lineno)
+            bad = None
+
+            def given(name, lineno):
+                return name in params and not (name in rebound_at and rebound_at[name] < lineno)
+            for node in walk_no_nested(fi.node):
+                if isinstance(node, ast.Delete):
+                    for tg in node.targets:
+                        if isinstance(tg, ast.Subscript) and isinstance(tg.value, ast.Name) and given(tg.value.id, node.lineno):
+                            bad = node
+                if isinstance(node, ast.Call) and isinstance(node.func, ast.Attribute) and node.func.attr in ('pop', 'popitem', 'clear') and isinstance(node.func.value, ast.Name) \
+                        and given(node.func.value.id, node.lineno):
+                    bad = node
+            ctx.touch(fi)
+            ctx.check(bad is None, '%s#arguments-kept' % fi.qualname, 'nothing is removed from an argument',
+                      '%s removes entries from an object it was given (%s): the caller\'s settings are consumed by the first call, and a second call with the same object behaves differently'
+                      % (fi.qualname, norm_stmt(bad)[:60] if isinstance(bad, ast.stmt) else (unparse(bad)[:60] if bad is not None else '')), fi, enclosing_stmt(bad) if bad is not None and not isinstance(bad, ast.stmt) else (bad or fi.node))
+    ctx.need(n >= 40, 'expected >= 40 functions in mystic.constraints / mystic.tools, found %d' % n)
